@@ -267,6 +267,24 @@ func gen(g *GenCtx, profile string) {
 	if g.Thorough() {
 		cases, steps = 4000/g.Parts, 120
 	}
+	if g.Part == 0 {
+		// fixed case: every block of a packet's body is covered by its tag — payload lengths around multiples
+		// of the 200-byte block of the packet cipher, one bit changed in the first, a middle, the last block,
+		// the last payload byte and the tag; then the genuine packet
+		c := &caseGen{g: g, n: 1, addrOf: []int{0}}
+		g.Op("new 1 50")
+		for _, size := range []int{199, 200, 201, 400, 600, 1000, 1200, 4000} {
+			l := c.op("wr C0 %d 3", size)
+			ref := fmt.Sprintf("%d.0", l)
+			for _, off := range []int{0, size / 2, size - 200, size - 1, size, size + 31} {
+				if off >= 0 {
+					c.op("dlv S 0 %s flip:b:%d:%d", ref, off, 1<<uint(off%8))
+				}
+			}
+			c.op("dlv S 0 %s none", ref)
+			c.op("rd S0")
+		}
+	}
 	for ci := 0; ci < cases; ci++ {
 		n := 1 + g.R.Intn(3)
 		c := &caseGen{g: g, n: n, roam: profile == "roam"}
